@@ -409,13 +409,16 @@ RULES = [('tmp', rule_tmp), ('acc', rule_acc), ('wguard', rule_wguard), ('wprop'
 def emit(rep, out):
     seen = {}
     for rule, oid, st, det, where in out:
-        if oid in seen:
+        k = (rule, oid)
+        if k in seen:
             # several instantiations of one pattern: the worst verdict wins
             rank = {HOLDS: 0, UNDECIDED: 1, VIOLATED: 2}
-            if rank[st] <= rank[seen[oid][2]]: continue
-        seen[oid] = (rule, oid, st, det, where)
+            if rank[st] <= rank[seen[k][2]]: continue
+        seen[k] = (rule, oid, st, det, where)
+    ids = {}
     for rule, oid, st, det, where in seen.values():
-        rep.ob(oid, rule, st, det, where)
+        full = oid if ids.setdefault(oid, rule) == rule else '%s[%s]' % (oid, rule)
+        rep.ob(full, rule, st, det, where)
 
 def main(rep, ws, tier):
     repo = build.REPO
